@@ -22,7 +22,7 @@ RULE = (
 ASSUMPTIONS = ["finite menus of malformed variants (listed in the evidence axes)", "single-threaded BLAS, so two executions of the same code on the same data are bit-identical", "OpenMDAO/NumPy trusted"]
 BOUND = {"quick": "2 problems x 4 operations each (70 schedules) x 3 model pairs", "thorough": "adds 3 problems x 2 operations (90 schedules) and more configurations"}
 
-PAIR_NAMES = ["aero_aero", "aero_as", "same_twice", "same_names_other_size", "left_vs_right", "as_left_vs_right"]
+PAIR_NAMES = ["aero_aero", "aero_as", "same_twice", "same_names_other_size", "left_vs_right", "as_left_vs_right", "struct_other_values", "as_other_values"]
 BOGUS = ["twist", "Mesh", "symetry", "thickness", "sweep_cp", "taper_cp", "with_viscous_drag", "CDO", "k_Lam", "E_modulus", "span_cp", "fem_model"]
 
 
@@ -333,6 +333,7 @@ def make_model(cfg, fam, mode="rev"):
         m = gen.make_mesh("twdi", 2, cfg.get("ny", 3 if cfg["sym"] else 5), cfg.get("side", "left") if cfg["sym"] else "full", fam, asym=not cfg["sym"], span=10.0, chord=1.6)
         extra = dict(taper=0.9, sweep=4.0, chord_cp=np.array([1.0, 1.05]), t_over_c_cp=np.array([0.12, 0.14])) if cfg.get("geomvars", True) else {}
         s = builders.struct_surface("wing", m, cfg["sym"], cfg["model"], struct_weight_relief=cfg["relief"], with_viscous=True, twist_cp=np.array([2.0, 3.0, 1.0]), **extra)
+        alt_values(s, cfg)
         pristine = snapshot([s])
         p = builders.build_aerostruct([s], dict(Mach_number=0.5, W0=2.0e3, v=100.0, rho=0.9, alpha=cfg.get("alpha", 4.0), speed_of_sound=200.0, R=2.0e6, load_factor=cfg.get("nfac", 1.3)), mode=mode)
         p._oasmc_pristine = pristine
@@ -340,12 +341,28 @@ def make_model(cfg, fam, mode="rev"):
         return p, [s], ["AS_point_0.CL", "AS_point_0.fuelburn", "AS_point_0.wing_perf.failure"], ["alpha", "wing.twist_cp"]
     m = gen.make_mesh("twdi", 2, cfg.get("ny", 3 if cfg["sym"] else 5), cfg.get("side", "left") if cfg["sym"] else "full", fam, asym=not cfg["sym"], span=10.0, chord=1.6)
     s = builders.struct_surface("wing", m, cfg["sym"], cfg["model"], struct_weight_relief=True, twist_cp=np.array([2.0, 3.0, 1.0]))
+    alt_values(s, cfg)
     ny = m.shape[1]
     loads = np.concatenate([gen.gen((ny, 3), 3, -2e3, 4e3, fam), gen.gen((ny, 3), 4, -5e2, 5e2, fam)], axis=1)
     pristine = snapshot([s])
     p = builders.build_struct(s, loads, mode=mode)
     p._oasmc_pristine = pristine
     return p, [s], ["failure", "structural_mass"], ["loads", "geometry.twist_cp"]
+
+
+def alt_values(surf, cfg):
+    """cfg['alt']: every scalar entry of the dictionary takes another (admissible) value - another material, other coefficients - so
+    that anything derived from the dictionary and kept outside the instance shows up when two such models share a process"""
+    if not cfg.get("alt"):
+        return
+    fac = dict(E=200.0 / 70.0, G=77.0 / 30.0, mrho=2.6, wing_weight_ratio=0.8, CL0=1.0, CD0=1.5, k_lam=3.0, c_max_t=1.2, fuel_density=0.9, Wf_reserve=0.5, strength_factor_for_upper_skin=0.9, original_wingbox_airfoil_t_over_c=1.0)
+    for k, f in fac.items():
+        if k in surf and np.isscalar(surf[k]):
+            surf[k] = surf[k] * f
+    surf["yield"] = surf["yield"] * 1.7
+    if "fem_origin" in surf:
+        surf["fem_origin"] = 0.45
+    surf["CL0"] = surf.get("CL0", 0.0) + 0.07
 
 
 def make_multisec(cfg, fam, mode):
@@ -527,6 +544,9 @@ PAIRS = {
     "same_names_other_size": (dict(kind="aero", sym=True, comp=False, ground=False, visc=True, wave=False, ns=1, name="wing", size=[2, 3]), dict(kind="aero", sym=True, comp=False, ground=False, visc=True, wave=False, ns=1, name="wing", size=[3, 5])),
     # same size and names, opposite handedness (left half vs right half) and span type
     "left_vs_right": (dict(kind="struct", model="tube", sym=True, side="left", ny=4), dict(kind="struct", model="tube", sym=True, side="right", ny=4)),
+    # same shapes and names, every scalar dictionary value different (another material, other coefficients)
+    "struct_other_values": (dict(kind="struct", model="tube", sym=True, ny=4), dict(kind="struct", model="tube", sym=True, ny=4, alt=True)),
+    "as_other_values": (dict(kind="as", model="wingbox", sym=True, relief=True), dict(kind="as", model="wingbox", sym=True, relief=True, alt=True)),
     "as_left_vs_right": (dict(kind="as", model="tube", sym=True, relief=True, side="left", ny=3), dict(kind="as", model="tube", sym=True, relief=True, side="right", ny=3)),
 }
 
